@@ -307,6 +307,16 @@ func (e *Engine) Load(name string) (*Template, error) {
 	if template == nil {
 		// If we have collected errors from loaders, include them in the error message
 		if len(loaderErrors) > 0 {
+			// A loader that failed for a reason other than "not found" (I/O error,
+			// corrupt data, ...) is a real failure: report it with its cause intact
+			// instead of disguising it as a missing template.
+			for _, loaderErr := range loaderErrors {
+				if !errors.Is(loaderErr, ErrTemplateNotFound) {
+					LogError(loaderErr, fmt.Sprintf("Failed to load template '%s'", name))
+					return nil, fmt.Errorf("failed to load template '%s': %w", name, loaderErr)
+				}
+			}
+
 			errorDetails := strings.Builder{}
 			errorDetails.WriteString(fmt.Sprintf("Template '%s' not found. Tried %d loaders:\n", name, len(loaderErrors)))
 
